@@ -174,7 +174,12 @@ fn header_bytes(max: usize) -> BoxedStrategy<Vec<u8>> {
 }
 
 fn header_list() -> BoxedStrategy<Vec<(Hex, Hex)>> {
-    proptest::collection::vec((header_bytes(24), header_bytes(80)), 0..8)
+    // names that merely resemble the reserved `Status` are ordinary headers
+    let name = prop_oneof![
+        8 => header_bytes(24),
+        1 => prop_oneof![Just("Status-Reason"), Just("STATUSES"), Just("statusx"), Just("X-Status"), Just("Statu"), Just("Status "), Just(" Status"), Just("Status:"), Just("status-"), Just("StatusCode")].prop_map(|s| s.as_bytes().to_vec()),
+    ];
+    proptest::collection::vec((name, header_bytes(80)), 0..8)
         .prop_map(|v| {
             v.into_iter()
                 .map(|(mut n, val)| {
